@@ -62,7 +62,7 @@ def showExit (h : C17.Handler) : String :=
   "exit=[" ++ " ".intercalate ((h.conns.foldr insertKV' []).map (fun kv => s!"{kv.1}:{kv.2.serial}")) ++ "]"
 
 def nodeOut (s : St) (a : Agent) (ex : C17.Handler) (k : Kind) (l : List Sent) (x : List String) : St × String :=
-  ({ s with a := a, ex := ex }, s!"sent={showSent a k l} x=[{" ".intercalate x}] | {showAgent a} | {showExit ex} uexit=[{" ".intercalate ((a.udpExit.foldr insertN []).map toString)}]")
+  ({ s with a := a, ex := ex }, s!"sent={showSent a k l} x=[{" ".intercalate x}] | {showAgent a} | {showExit ex} uexit=[{" ".intercalate ((a.udpExit.foldr insertN []).map toString)}] uidx=[{" ".intercalate ((a.uidx.foldr insertN []).map toString)}]")
 
 def agentOut (s : St) (a : Agent) (k : Kind) (l : List Sent) : St × String :=
   nodeOut s a s.ex k l []
@@ -81,6 +81,14 @@ def tOut (s : St) (t : Table) (res : String) : St × String :=
 def step (cleanAll : Bool) (s : St) (line : String) : St × String :=
   match tokens line with
   | "reset" :: _ => ({ t := {}, a := { cleanAll := cleanAll }, ex := {} }, "ok")
+  | ["uiopen", p] =>
+    if !s.a.connected p.toNat! then agentOut s s.a .udp [] else
+    let (a, l) := s.a.udpIngressOpen p.toNat!
+    agentOut s a .udp l
+  | ["uiack", _, _] => agentOut s s.a .udp []
+  | ["uierr", p, i] =>
+    let (a, l) := s.a.udpIngressErr p.toNat! i.toNat!
+    agentOut s a .udp l
   | ["uxopen", p, i] =>
     if !s.a.connected p.toNat! then agentOut s s.a .udp [] else
     let (a, l) := s.a.udpExitOpen p.toNat! i.toNat!
@@ -126,6 +134,10 @@ def step (cleanAll : Bool) (s : St) (line : String) : St × String :=
     | none => (s, "bad-op")
   | "err" :: k :: p :: i :: rest =>
     match parseKind k with
+    | some .udp =>
+      match s.a.relayErr .udp p.toNat! i.toNat! (rest.headD "010203") with
+      | some r => optOut s .udp (some r)
+      | none => agentOut s { s.a with uidx := s.a.uidx.filter (· != i.toNat!) } .udp []
     | some k => optOut s k (s.a.relayErr k p.toNat! i.toNat! (rest.headD "010203"))
     | none => (s, "bad-op")
   | "data" :: k :: p :: i :: rest =>
@@ -182,6 +194,7 @@ structure SpecSt where
   collided : Bool := false   -- two live tunnels of one table shared a bare stream id at some point
   relayCollided : Bool := false  -- … two RELAYED tunnels of one relay table (the only thing that can orphan an index)
   uxlive : List (Nat × Nat) := []  -- exit-side UDP associations (peer, id)
+  uiLive : List Nat := []          -- ingress clients (local stream id of their destination association)
 
 /-- frames sent: (peer, kind.what, stream id, payload/flags token or "") -/
 def parseSent (out : String) : List (Nat × String × Nat × String) :=
@@ -195,8 +208,13 @@ def parseSent (out : String) : List (Nat × String × Nat × String) :=
     | [] => []
   | _ => []
 
+def parseUidx (out : String) : List Nat :=
+  match out.splitOn "uidx=[" with
+  | [_, rest] => (tokens ((rest.splitOn "]").headD "")).map String.toNat!
+  | _ => []
+
 def parseX (out : String) : List String :=
-  match out.splitOn "x=[" with
+  match out.splitOn " x=[" with
   | [_, rest] => tokens ((rest.splitOn "]").headD "")
   | _ => []
 
@@ -333,6 +351,17 @@ def specStep (s : SpecSt) (l : String) : SpecSt × String :=
       match checkFwd s k "ack" (expectFwd s k p i false) sent (rest.headD "010203") with
       | some e => (s, "fail " ++ e)
       | none => (s, "ok")
+    | ["uiopen", _] =>
+      match sent with
+      | [(_, "udp.open", j, _)] => ({ s with uiLive := j :: s.uiLive.filter (· != j) }, "ok")
+      | _ => (s, "ok")
+    | ["uiack", _, _] =>
+      -- every ingress client keeps its reverse-index entry (its return datagrams are deliverable)
+      (s, if s.uiLive.all (fun j => (parseUidx out).contains j) then "ok" else "fail c16-ingress-unindexed")
+    | ["uierr", _, i] =>
+      let s' := { s with uiLive := s.uiLive.filter (· != i.toNat!) }
+      -- the refused client is gone; every OTHER client keeps its entry
+      (s', if s'.uiLive.all (fun j => (parseUidx out).contains j) then "ok" else "fail c16-ingress-unindexed")
     | ["uxopen", p, i] =>
       let (p, i) := (p.toNat!, i.toNat!)
       if !s.peers.contains p then (s, "ok") else
